@@ -61,24 +61,21 @@ theorem runEvs_emit (val : Str → Bool) (cur e : Str) (mk : Str → List Block)
       simp only [hx, if_false, List.mem_cons, hx', false_or]
       exact ih hnd.2
 
-/-- **Refinement.** In every state of the table the generated `process` does exactly what the
-    table says, for every event and every guard valuation: same callbacks in the same order
-    (guards evaluated in table order), same next state, `NoTransition` when nothing fires. -/
-theorem C08_refines_table (t : List Row) (cur e : Str) (val : Str → Bool)
+/-- refinement for an arbitrary fallback (shared by the Python and the C# back end) -/
+theorem refines_with (fb : List Cb) (t : List Row) (cur e : Str) (val : Str → Bool)
     (hcur : cur ∈ states t ∨ cur ∈ sourceStates t) :
-    process (emit t) cur e val = stepRef t cur e val := by
+    processWith fb (emit t) cur e val = tryRows val fb cur (rowsFor t cur e) := by
   have hkey : cur ∈ perStateKeys t := by
     rw [mem_perStateKeys]; rcases hcur with h | h
     · exact Or.inr h
     · exact Or.inl h
-  unfold process emit
+  unfold processWith emit
   simp only
   rw [find?_map_key (perStateKeys t)
     (fun s => (⟨s, (eventsOf t s).map (fun e => ⟨e, (rowsFor t s e).map emitBlock⟩)⟩ : StateFn))
     (fun fn => fn.state) (fun _ => rfl) cur]
-  simp only [hkey, if_true, runFn]
+  simp only [hkey, if_true, runFnWith]
   rw [runEvs_emit val cur e (fun e' => (rowsFor t cur e').map emitBlock) (eventsOf t cur) (nodup_eventsOf t cur)]
-  unfold stepRef
   by_cases he : e ∈ eventsOf t cur
   · simp only [he, if_true]
     rw [runBlocks_emit]
@@ -87,6 +84,14 @@ theorem C08_refines_table (t : List Row) (cur e : Str) (val : Str → Bool)
   · simp only [he, if_false]
     rw [rowsFor_nil_of_not_mem t cur e he]
     simp [tryRows]
+
+/-- **Refinement.** In every state of the table the generated `process` does exactly what the
+    table says, for every event and every guard valuation: same callbacks in the same order
+    (guards evaluated in table order), same next state, `NoTransition` when nothing fires. -/
+theorem C08_refines_table (t : List Row) (cur e : Str) (val : Str → Bool)
+    (hcur : cur ∈ states t ∨ cur ∈ sourceStates t) :
+    process (emit t) cur e val = stepRef t cur e val :=
+  refines_with [Cb.noTransition] t cur e val hcur
 
 /-- the state reached by a step is again a state of the table -/
 theorem tryRows_state (val : Str → Bool) (fb : List Cb) (cur : Str) (rows : List Row) (S : Str → Prop)
